@@ -17,6 +17,7 @@ package redis
 import (
 	"crypto/tls"
 	"errors"
+	"fmt"
 	"io"
 	"net"
 	"strconv"
@@ -364,6 +365,9 @@ func (server *Server) handleArrayMessage(conn *Conn, arrayMsg *proto.Array) (*Me
 	firstMsg, err := arrayMsg.Next()
 	if err != nil {
 		return nil, err
+	}
+	if firstMsg == nil {
+		return nil, fmt.Errorf("%w empty command", ErrInvalid)
 	}
 
 	// Nested array ?
